@@ -31,6 +31,7 @@ def rules(ctx):
     c115(ctx)
     c116(ctx)
     c117(ctx)
+    c118(ctx)
 
 
 def c115(ctx):
@@ -204,6 +205,40 @@ def c117(ctx):
                       "%s makes another child current and steps, reads or returns it without seeking it (%s) first: a child that an earlier pass ran off "
                       "the end of stays exhausted, and all of its entries are skipped on this pass" % (m, "/".join(sorted(want[m]))), pt=p_, path=q)
     ctx.floor(R, "concatenating cursor: reposition() sites", n, 6)
+
+
+def c118(ctx):
+    R = "C11.8"
+    ctx.declare(R, "lazy cursor: a movement that fails leaves the position as it was -- the resting sentinel (First / Last) is stored only after the last "
+                   "fallible step, so a caller that retries after a failed open does not find the file `exhausted`")
+    L = "<sst::lazy_cursor::LazyCursor as sst::Cursor>::"
+    n = 0
+
+    def sentinel(fn, op):
+        return any(x["k"] == "agg" and (x.get("adt") or "").endswith("lazy_cursor::Position") and x.get("variant") in ("First", "Last") for x in P.origins(fn, op))
+    for m in ("seek", "next", "prev"):
+        f = ctx.fn(R, L + m)
+        if not f:
+            continue
+        ws = []
+        for pt in P.field_writes(f, r"lazy_cursor::LazyCursor$", "position"):
+            if pt[1] < len(f.blocks[pt[0]].st):
+                rv = f.blocks[pt[0]].st[pt[1]]["rv"]
+                if (rv.get("r") == "agg" and rv.get("variant") in ("First", "Last")) or (rv.get("r") == "use" and sentinel(f, rv["a"])):
+                    ws.append(pt)
+        for b, t in f.calls():
+            ck = callee_skey(t) or ""
+            if re.search(r"^core::mem::(replace|swap)$", ck) or ck.startswith("sst::lazy_cursor::LazyCursor::"):
+                if any(sentinel(f, a) for a in t["args"][1:]):
+                    ws.append(P.term_pt(f, b.idx))
+        n += len(ws)
+        errs = P.error_points(f)
+        for w in ws:
+            q = P.reach(f, P.after(f, w), errs)
+            ctx.check(R, f, "sentinel-after-last-fallible-step", q is None, "the resting position is stored where nothing can fail any more",
+                      "%s stores the resting position (First / Last) and can still fail afterwards: after a failed open or a failed inner move the cursor "
+                      "is parked at the far end, and a retry of the same call answers `exhausted` for a file that was never read" % m, pt=w, path=q)
+    ctx.floor(R, "lazy cursor: stores of a resting position in seek / next / prev", n, 3)
 
 
 def key_some_guard(f, pt, recv_names):
